@@ -113,12 +113,10 @@ def run_check(prop, tier, base_seed, jobs=None, budget_s=None, runs=None, quiet=
     for k in kf_all:
         if prop not in k.get("property", []):
             continue
-        path = os.path.join(ROOT, k["example_replay"])
+        path = os.path.join(ROOT, (k.get("examples") or {}).get(prop) or k["example_replay"])
         if not os.path.exists(path):
             continue
         rp = json.load(open(path))
-        if prop not in (rp.get("check_under") or k["property"]):
-            continue
         res = replay_file(path, as_prop=prop)
         if k["status"] == "open":
             if res["reproduced"]:
@@ -226,7 +224,7 @@ def run_check(prop, tier, base_seed, jobs=None, budget_s=None, runs=None, quiet=
             "distinct_schedule_signatures": len(set(r.get("sig") for r in results if r.get("sig"))),
             "final_status_counts": dict((str(k), v) for k, v in sorted(finals.items(), key=lambda kv: str(kv[0]))),
             "known_findings_matched": kf_counts,
-            "known_findings_stale": stale,
+            "known_findings_not_reproduced_by_their_example": stale,
             "aborted_runs_foreign_cause": len([r for r in results if r["outcome"] == "abort"]),
             "relation_coverage": post_cov,
             "real_components": REAL_COMPONENTS, "stub_components": STUB_COMPONENTS,
